@@ -1554,6 +1554,21 @@ func matchSetOptionsRestrictedTypeToAPI(t oc.MatchSetOptionsRestrictedType) api.
 	return api.MatchSet_TYPE_ANY
 }
 
+// toCommunityActionType maps the config option to the API enum. The enum
+// reserves 0 for UNSPECIFIED, so the index of the option in the config enum
+// (ADD = 0, REMOVE = 1, REPLACE = 2) cannot be cast.
+func toCommunityActionType(t oc.BgpSetCommunityOptionType) api.CommunityAction_Type {
+	switch t {
+	case oc.BGP_SET_COMMUNITY_OPTION_TYPE_ADD:
+		return api.CommunityAction_TYPE_ADD
+	case oc.BGP_SET_COMMUNITY_OPTION_TYPE_REMOVE:
+		return api.CommunityAction_TYPE_REMOVE
+	case oc.BGP_SET_COMMUNITY_OPTION_TYPE_REPLACE:
+		return api.CommunityAction_TYPE_REPLACE
+	}
+	return api.CommunityAction_TYPE_UNSPECIFIED
+}
+
 func toStatementApi(s *oc.Statement) *api.Statement {
 	cs := &api.Conditions{}
 	if s.Conditions.MatchPrefixSet.PrefixSet != "" {
@@ -1660,15 +1675,7 @@ func toStatementApi(s *oc.Statement) *api.Statement {
 			if len(s.Actions.BgpActions.SetCommunity.SetCommunityMethod.CommunitiesList) == 0 {
 				return nil
 			}
-			action := api.CommunityAction_TYPE_UNSPECIFIED
-			switch oc.BgpSetCommunityOptionType(s.Actions.BgpActions.SetCommunity.Options) {
-			case oc.BGP_SET_COMMUNITY_OPTION_TYPE_ADD:
-				action = api.CommunityAction_TYPE_ADD
-			case oc.BGP_SET_COMMUNITY_OPTION_TYPE_REMOVE:
-				action = api.CommunityAction_TYPE_REMOVE
-			case oc.BGP_SET_COMMUNITY_OPTION_TYPE_REPLACE:
-				action = api.CommunityAction_TYPE_REPLACE
-			}
+			action := toCommunityActionType(oc.BgpSetCommunityOptionType(s.Actions.BgpActions.SetCommunity.Options))
 			return &api.CommunityAction{
 				Type:        action,
 				Communities: s.Actions.BgpActions.SetCommunity.SetCommunityMethod.CommunitiesList,
@@ -1719,7 +1726,7 @@ func toStatementApi(s *oc.Statement) *api.Statement {
 				return nil
 			}
 			return &api.CommunityAction{
-				Type:        api.CommunityAction_Type(oc.BgpSetCommunityOptionTypeToIntMap[oc.BgpSetCommunityOptionType(s.Actions.BgpActions.SetExtCommunity.Options)]),
+				Type:        toCommunityActionType(oc.BgpSetCommunityOptionType(s.Actions.BgpActions.SetExtCommunity.Options)),
 				Communities: s.Actions.BgpActions.SetExtCommunity.SetExtCommunityMethod.CommunitiesList,
 			}
 		}(),
@@ -1728,7 +1735,7 @@ func toStatementApi(s *oc.Statement) *api.Statement {
 				return nil
 			}
 			return &api.CommunityAction{
-				Type:        api.CommunityAction_Type(oc.BgpSetCommunityOptionTypeToIntMap[s.Actions.BgpActions.SetLargeCommunity.Options]),
+				Type:        toCommunityActionType(s.Actions.BgpActions.SetLargeCommunity.Options),
 				Communities: s.Actions.BgpActions.SetLargeCommunity.SetLargeCommunityMethod.CommunitiesList,
 			}
 		}(),
